@@ -907,11 +907,40 @@ let k_line args =
        let sentv = (match body with None -> v | Some (_, bv) ->
            let inner = String.sub v 1 (String.length v - 2) in
            "{" ^ (if inner = "" then "" else inner ^ ",") ^ bv ^ "}") in
-       "model=" ^ got ^ " spec=" ^ sentv ^ " path=" ^ hex_of_str rq.q_path) in
+       let wire = (match client_wire_url fmt_float_client fmt_time_o (gen_base s) od sent with
+           | Some w -> hex_of_str w | None -> "NONE") in
+       "model=" ^ got ^ " spec=" ^ sentv ^ " path=" ^ hex_of_str rq.q_path ^ " wire=" ^ wire) in
   match args with
   | [pkg; key; v] -> go pkg key v None
   | [pkg; key; v; bt; bv] -> go pkg key v (Some (bt, bv))
   | _ -> fail_line "K args"
+
+(* ---------- C09: UE lines, net/url escaping against Model/UrlEscape.v ---------- *)
+let pairs_of_arg (a : string) =
+  if a = "-" then [] else
+  List.map (fun kv -> match String.split_on_char ':' kv with
+      | [k; v] -> (str_of_hex k, str_of_hex v)
+      | _ -> failwith "UE pair") (String.split_on_char ',' a)
+
+(* pairs grouped by key (keys sorted bytewise, values of a key in order): what a url.Values map holds *)
+let grouped ps : string =
+  match url_sort_pairs ps with
+  | [] -> "-"
+  | sorted -> String.concat "," (List.map (fun (k, v) -> hex_of_str k ^ ":" ^ hex_of_str v) sorted)
+
+let ue_line args =
+  match args with
+  | ["pe"; h] -> "model=" ^ hex_of_str (url_path_escape (str_of_hex h))
+  | ["qe"; h] -> "model=" ^ hex_of_str (url_query_escape (str_of_hex h))
+  | ["pu"; h] -> "model=" ^ (match url_unescape false (str_of_hex h) with Some s -> "ok:" ^ hex_of_str s | None -> "ERR")
+  | ["qu"; h] -> "model=" ^ (match url_unescape true (str_of_hex h) with Some s -> "ok:" ^ hex_of_str s | None -> "ERR")
+  | ["ve"; a] -> let ps = pairs_of_arg a in
+    "model=" ^ hex_of_str (url_encode_query (url_sort_pairs ps)) ^ " spec=" ^ hex_of_str (url_encode_query (url_sort_pairs ps))
+  | ["pq"; h] -> "model=" ^ grouped (url_parse_query (str_of_hex h))
+  | ["rt"; a] -> let ps = pairs_of_arg a in
+    (* Encode then Query(): the model's answer, and what the property wants (the pairs that went in) *)
+    "model=" ^ grouped (url_parse_query (url_encode_query (url_sort_pairs ps))) ^ " spec=" ^ grouped ps
+  | _ -> fail_line "UE args"
 
 (* ---------- C10 / C02: W (response plans), V (response value), X (stub status) lines ---------- *)
 (* plan syntax: <status|default>|<gotype>|<hex ctype or ->|<decls or ->|<none|raw|json:<J name>>, plans joined by '+' *)
@@ -1043,6 +1072,7 @@ let dispatch line =
   | "W" :: args -> w_line args
   | "V" :: args -> v_line args
   | "X" :: args -> x_line args
+  | "UE" :: args -> ue_line args
   | ["N"; "pfn"; h] -> "model=" ^ hex_of_str (public_field_name (str_of_hex h))
   | ["N"; "cmt"; h] -> "model=" ^ hex_of_str (holes_comment (str_of_hex h))
   | ["N"; "lex"; h] -> "model=" ^ (match holes_ctx_after (str_of_hex h) with
